@@ -26,16 +26,52 @@ type TraceSpecCfg struct {
 	Features   fam.Features
 	Driver     run.DriverOpts
 	Opts       []cat.Opts // a container picks one of these at random
+	// Variants: for every recorded container also record these derived executions of the same
+	// history (perm, scope-early, scope-late, defer, enc, dry) and compare them pairwise with the
+	// base execution (metamorphic, real versus real); all of them are validated by TLC as well.
+	Variants []string
 }
 
-// recordOne records container i of the batch (deterministic in seed and i).
-func recordOne(cfg *TraceSpecCfg, i int) *run.Recorded {
+// recordOne records container i of the batch (deterministic in seed and i): the base execution
+// followed by the requested variants.
+func recordOne(cfg *TraceSpecCfg, i int) []*run.Recorded {
 	r := rand.New(rand.NewSource(cfg.Seed*1000003 + int64(i)))
 	c := fam.Random(r, cfg.Features)
 	c.Note = fmt.Sprintf("trace %s seed=%d #%d", cfg.Name, cfg.Seed, i)
 	opt := cfg.Opts[r.Intn(len(cfg.Opts))]
 	c.Opts = []cat.Opts{opt}
-	return run.RandomHistory(r, c, opt, cfg.Driver)
+	base := run.RandomHistory(r, c, opt, cfg.Driver)
+	out := []*run.Recorded{base}
+	if base.Err != "" {
+		return out
+	}
+	script := base.Script()
+	for _, v := range cfg.Variants {
+		var rec *run.Recorded
+		switch v {
+		case "perm":
+			rec = run.RunScript(c, opt, run.PermuteBlocks(r, script), v)
+		case "scope-early":
+			rec = run.RunScript(c, opt, run.MoveScopes(c, script, true), v)
+		case "scope-late":
+			rec = run.RunScript(c, opt, run.MoveScopes(c, script, false), v)
+		case "defer":
+			o := opt
+			o.Defer = !o.Defer
+			rec = run.RunScript(c, o, script, v)
+		case "dry":
+			o := opt
+			o.Dry = true
+			rec = run.RunScript(c, o, script, v)
+		case "enc":
+			rec = run.RunScript(run.Reencode(r, c), opt, script, v)
+		default:
+			continue
+		}
+		rec.Cat.Note = c.Note
+		out = append(out, rec)
+	}
+	return out
 }
 
 // recordMain is the child process that records containers lo..hi-1 and writes them as JSON.
@@ -54,7 +90,7 @@ func recordMain(args []string) int {
 	hi, _ := strconv.Atoi(args[2])
 	var recs []*run.Recorded
 	for i := lo; i < hi; i++ {
-		recs = append(recs, recordOne(&cfg, i))
+		recs = append(recs, recordOne(&cfg, i)...)
 	}
 	out, _ := json.Marshal(recs)
 	if err := os.WriteFile(args[3], out, 0o644); err != nil {
@@ -81,6 +117,7 @@ type TraceStats struct {
 	Samples    []json.RawMessage
 	Wall       float64
 	Accepted   int // containers whose whole trace was accepted
+	Pairs      int // variant executions compared with their base execution
 }
 
 type traceExample struct {
@@ -178,6 +215,28 @@ func traceStageRun(cfg TraceSpecCfg, st *TraceStats, only int, timeout time.Dura
 	}
 	if len(recs) == 0 {
 		return st, fmt.Errorf("no container recorded")
+	}
+	// metamorphic comparison of every variant with its base execution (real versus real)
+	var base *run.Recorded
+	for _, r := range recs {
+		if r.Variant == "" {
+			base = r
+			continue
+		}
+		if base == nil || r.Err != "" {
+			continue
+		}
+		mode := r.Variant
+		if strings.HasPrefix(mode, "scope") {
+			mode = "scope"
+		}
+		st.Pairs++
+		for _, d := range run.ComparePair(mode, base, r) {
+			st.Divs[d.Kind]++
+			if st.Divs[d.Kind] <= maxExamples {
+				st.Examples = append(st.Examples, traceExample{Div: d, Rec: r, UpTo: len(r.Ops)})
+			}
+		}
 	}
 	if _, err := writeCats(dir, cats); err != nil {
 		return st, err
@@ -293,8 +352,8 @@ func (st *TraceStats) summary() string {
 	}
 	sort.Strings(ks)
 	var b strings.Builder
-	fmt.Fprintf(&b, "traces %s: %d containers recorded from the real code (%d ops, %d execs, %d trace lines); TLC %d states, depth %d (%.1fs); %d predictions compared, %d containers fully accepted, Strict rejected %d ops",
-		st.Name, st.Containers, st.Ops, st.Execs, st.TraceLines, st.TLC.Distinct, st.TLC.Depth, st.TLC.Wall, st.Predicted, st.Accepted, st.StrictBad)
+	fmt.Fprintf(&b, "traces %s: %d containers recorded from the real code (%d ops, %d execs, %d trace lines); TLC %d states, depth %d (%.1fs); %d predictions compared, %d containers fully accepted, Strict rejected %d ops; %d variant executions compared pairwise with their base",
+		st.Name, st.Containers, st.Ops, st.Execs, st.TraceLines, st.TLC.Distinct, st.TLC.Depth, st.TLC.Wall, st.Predicted, st.Accepted, st.StrictBad, st.Pairs)
 	for _, k := range ks {
 		fmt.Fprintf(&b, "\n  divergence %-18s %d", k, st.Divs[k])
 	}
